@@ -24,23 +24,6 @@ Res(c, k) ==
         r == EvalEntry(c.g, run[1], run[2], run[3])
     IN <<r.t, r.v, r.e, r.far>>
 
-(* ---- the fragment PegVM transcribes ---- *)
-RECURSIVE InVM(_)
-InVM(e) ==
-    CASE e[1] \in {"str", "stri", "rx", "byte", "fail", "back", "ref"} -> TRUE
-      [] e[1] \in {"seq", "choice", "skip", "longest"} -> \A k \in 1..Len(e[2]) : InVM(e[2][k])
-      [] e[1] \in {"left", "right"} -> InVM(e[2]) /\ InVM(e[3])
-      [] e[1] \in {"opt", "expect", "not"} -> InVM(e[2])
-      [] e[1] = "list" -> InVM(e[2]) /\ e[3][1] \in {"none", "n"} /\ e[4][1] \in {"none", "n"}
-      [] e[1] = "sep" -> InVM(e[2]) /\ InVM(e[3])
-      [] e[1] = "optable" -> InVM(e[2]) /\ \A r \in 1..Len(e[3]) : \A k \in 1..Len(e[3][r][2]) : InVM(e[3][r][2][k])
-      [] OTHER -> FALSE
-
-GInVM(G) ==
-    /\ G.ign = <<>>
-    /\ \A r \in DOMAIN G.rules :
-          G.rules[r].kind = "rule" /\ G.rules[r].params = <<>> /\ InVM(G.rules[r].body)
-
 Next == /\ ~done
         /\ done' = TRUE
         /\ i' = i
@@ -55,7 +38,8 @@ AgreesAt(G, entry, txt, p) ==
     IN s.t = "ill" \/ ( /\ r.st = (s.t = "ok")
                         /\ (r.st => (r.res = s.v /\ r.pos = s.e))
                         /\ (~r.st => r.res[1] # "bad")
-                        /\ ((~r.st /\ ~CPS(G, G.rules[entry].body)) => r.pos = p) )
+                        \* (the start rule of a grammar with ignore declarations is  _ignored >> body : it may fail after skipping)
+                        /\ ((~r.st /\ ~CPS(G, G.rules[entry].body) /\ ~(entry = G.start /\ G.ign # <<>>)) => r.pos = p) )
 
 VMAgrees ==
     done => LET c == Cases[i] IN
